@@ -18,7 +18,7 @@
     uses the same token (C14; oracle + balance correspondence). *)
 From LP Require Import Proofs.Tactics Proofs.LedgerBase Proofs.Gates Proofs.Frames Proofs.Settle Proofs.Confirm Proofs.Ledger
   Proofs.ClaimLedger Proofs.Loop Proofs.Resume Proofs.FisherYates Proofs.Shuffle Proofs.Rng Proofs.Filter Proofs.Partition
-  Proofs.Resume3 Proofs.GuaranteedLoop Proofs.Leftover Proofs.Lifecycle Proofs.Interleave Proofs.LifecycleNoisy Proofs.Setup Proofs.SetupPrice
+  Proofs.Resume3 Proofs.GuaranteedLoop Proofs.Leftover Proofs.Lifecycle Proofs.Interleave Proofs.InterleaveGt Proofs.LifecycleNoisy Proofs.Setup Proofs.SetupPrice
   Proofs.SetupGt Proofs.Examples.
 Open Scope N_scope.
 
@@ -184,6 +184,19 @@ Theorem C01_pipeline_noisy : forall (H : list N -> list N) l w0 wf ef bf w1' ws 
     claimable_payment (st w2) = price (st w0) * k.
 Proof. exact pipeline_noisy. Qed.
 
+Theorem C01_pipeline_gt_noisy : forall (H : list N -> list N) v2 l w0 wf ef bf w1' ws es bs w2' sd rest wd ed bd w3',
+  PreSel w0 l -> NoDup (gt_users (st w0)) -> paused (st w0) = false -> fl_additional (st w0) = false ->
+  noisy filter_tickets w0 wf -> filter_tickets ef bf wf = Ok (w1', 0) ->
+  seeds w1' = sd :: rest ->
+  noisy (select_winners H) w1' ws -> select_winners H es bs ws = Ok (w2', 0) ->
+  noisyT (distribute_guaranteed_tickets H v2) w2' wd -> distribute_guaranteed_tickets H v2 ed bd wd = Ok (w3', 0) ->
+  exists su cs p w2 w3,
+    w3' = Tw su cs p w3 /\ ClaimInv w3' (map fst l) /\
+    dist_result v2 (st w2) (st w3) /\
+    (forall u, In u (gt_users (st w2)) -> owed v2 (st w2) u <= own_winning (st w2) (st w3) u) /\
+    (forall t, status (st w2) t = true -> status (st w3) t = true).
+Proof. exact pipeline_gt_noisy. Qed.
+
 Theorem C01_pipeline_drained : forall (H : list N -> list N) l w0 lf wf ef bf w1 ls ws es bs w2 sd rest w3,
   PreSel w0 l ->
   after_interrupted filter_tickets lf w0 = Some wf -> filter_tickets ef bf wf = Ok (w1, 0) ->
@@ -333,6 +346,7 @@ Print Assumptions C01_any_order.
 Print Assumptions C01_drained.
 Print Assumptions C01_pipeline.
 Print Assumptions C01_pipeline_noisy.
+Print Assumptions C01_pipeline_gt_noisy.
 Print Assumptions C01_pipeline_drained.
 Print Assumptions C01_pipeline_gt.
 Print Assumptions C01_pipeline_nft.
